@@ -1981,6 +1981,8 @@ def key_split(s):
     if type(s) is bytes:
         return key_split(s.decode())
     if type(s) is tuple:
+        if not s:
+            return "Other"
         return key_split(s[0])
     try:
         words = s.split("-")
